@@ -3,6 +3,7 @@
 
 #include <Eigen/Core>
 #include <cassert>
+#include <memory>
 #include "romea_core_common/containers/grid/WrappableGrid.hpp"
 
 namespace {
@@ -40,7 +41,8 @@ struct Model
   }
 };
 
-struct GridOp {int kind; int k[3]; int cell[3]; int value;};  // kind 0 translate(k, value) ; 1 write(cell)=value
+// kind 0 translate(k, value) ; 1 write(cell)=value ; 2 continue on a copy-constructed grid ; 3 on a copy-assigned one
+struct GridOp {int kind; int k[3]; int cell[3]; int value;};
 
 template<size_t DIM>
 void runHistory(vf::Ctx & c, const int * n, const std::vector<GridOp> & ops)
@@ -50,7 +52,7 @@ void runHistory(vf::Ctx & c, const int * n, const std::vector<GridOp> & ops)
   using Offset = typename Grid::CellIndexesOffset;
   CellIndexes nn;
   for (size_t d = 0; d < DIM; ++d) {nn[d] = static_cast<size_t>(n[d]);}
-  Grid grid(nn);
+  std::unique_ptr<Grid> gridHolder(new Grid(nn));
   Model<DIM> m;
   m.init(n);
   // distinct initial values
@@ -62,7 +64,7 @@ void runHistory(vf::Ctx & c, const int * n, const std::vector<GridOp> & ops)
           CellIndexes ci;
           for (size_t d = 0; d < DIM; ++d) {ci[d] = static_cast<size_t>(i[d]);}
           int v = 1000 + static_cast<int>(m.lin(i));
-          grid(ci) = v;
+          (*gridHolder)(ci) = v;
           m.cells[m.lin(i)] = v;
         }
       }
@@ -70,7 +72,20 @@ void runHistory(vf::Ctx & c, const int * n, const std::vector<GridOp> & ops)
   }
   int step = 0;
   for (const GridOp & op : ops) {
-    if (op.kind == 0) {
+    Grid & grid = *gridHolder;
+    if (op.kind == 2) {
+      // a copy is the same window: continue on a copy-constructed grid, the original is destroyed
+      std::unique_ptr<Grid> copy(new Grid(grid));
+      gridHolder = std::move(copy);
+    } else if (op.kind == 3) {
+      // ... or on a grid of the same size that had a life of its own and takes the content by assignment
+      std::unique_ptr<Grid> other(new Grid(nn));
+      Offset one;
+      for (size_t d = 0; d < DIM; ++d) {one[d] = 1;}
+      other->translate(one, 777);
+      *other = grid;
+      gridHolder = std::move(other);
+    } else if (op.kind == 0) {
       Offset off;
       for (size_t d = 0; d < DIM; ++d) {off[d] = op.k[d];}
       grid.translate(off, op.value);
@@ -82,7 +97,8 @@ void runHistory(vf::Ctx & c, const int * n, const std::vector<GridOp> & ops)
       m.cells[m.lin(op.cell)] = op.value;
     }
     // after every op: every cell and the reported offset
-    const Grid & cg = grid;
+    Grid & gridNow = *gridHolder;
+    const Grid & cg = gridNow;
     int i[3];
     for (i[2] = 0; i[2] < m.n[2]; ++i[2]) {
       for (i[1] = 0; i[1] < m.n[1]; ++i[1]) {
@@ -92,12 +108,12 @@ void runHistory(vf::Ctx & c, const int * n, const std::vector<GridOp> & ops)
           int got = cg(ci), want = m.cells[m.lin(i)];
           if (got != want) {
             c.fail(vf::fmt("after op %d (%s): cell (%d,%d,%d) of a %dx%dx%d grid reads %d, the window model says %d",
-              step, op.kind == 0 ? "translate" : "write", i[0], i[1], i[2], m.n[0], m.n[1], m.n[2], got, want));
+              step, op.kind == 0 ? "translate" : (op.kind == 1 ? "write" : "copy"), i[0], i[1], i[2], m.n[0], m.n[1], m.n[2], got, want));
           }
         }
       }
     }
-    auto off = grid.getIndexOffsetAlongAxes();
+    auto off = gridNow.getIndexOffsetAlongAxes();
     for (size_t d = 0; d < DIM; ++d) {
       int64_t want = ((m.acc[d] % m.n[d]) + m.n[d]) % m.n[d];
       if (static_cast<int64_t>(off[d]) != want) {
@@ -170,10 +186,13 @@ void randomHistory(vf::Ctx & c)
   if (DIM == 3) {n[2] = static_cast<int>(c.s.i("nz", 1, 8));}
   int L = static_cast<int>(c.s.len("n_ops", 1, 50));
   std::vector<GridOp> ops;
+  bool copied = false;
   for (int t = 0; t < L; ++t) {
     GridOp op{};
-    op.kind = static_cast<int>(c.s.pick("op", {3, 1}));
-    if (op.kind == 0) {
+    op.kind = static_cast<int>(c.s.pick("op", {9, 3, 1, 1}));
+    if (op.kind >= 2) {
+      copied = true;
+    } else if (op.kind == 0) {
       for (size_t d = 0; d < DIM; ++d) {
         size_t mag = c.s.pick("k_class", {2, 4, 1});  // zero, small, up to twice the size
         if (mag == 0) {op.k[d] = 0;} else if (mag == 1) {
@@ -191,6 +210,7 @@ void randomHistory(vf::Ctx & c)
   bool hasWrite = false;
   for (const auto & op : ops) {hasWrite = hasWrite || op.kind == 1;}
   if (hasWrite) {c.label("writes-interleaved");}
+  if (copied) {c.label("continued-on-a-copy-of-the-grid");}
   c.commit();
   runHistory<DIM>(c, n, ops);
 }
